@@ -207,8 +207,8 @@ def read_list(t, delim, i=0, module=None):
         i, q = kg_read(t, i, read_neg=True, ignore_newline=True, module=module)
         if q is None:
             break
-        if safe_eq(q, '['):
-            i, q = read_list(t, ']', i=i, module=module)
+        # nested lists arrive here already read (kg_read recurses); a "[" string or 0c[
+        # character element is data, not an opening bracket
         arr.append(q)
         i = skip(t, i, ignore_newline=True)
     if cmatch(t, i, delim):
